@@ -24,9 +24,11 @@ GSP = "mqtt::packet::enum_store_packet::GenericStorePacket"
 
 def check(run, F, tier):
     run.explanation = ("Sibling agreement of the serialisers from MIR: guarded source sequences of to_continuous_buffer and to_buffers "
-                       "compared per guard valuation; size() and enum dispatch wiring. Byte-exact parse(encode(x)) = x is NOT decided "
-                       "by this family.")
-    r1 = run.rule("C02-R1", "to_continuous_buffer and to_buffers append the same sources in the same order under the same conditions", floor=60)
+                       "compared per guard valuation (list fields given 0, 1 and 2 symbolic entries, iteration followed exactly); size() "
+                       "and enum dispatch wiring; length accounting: on every accepting abstract path of every builder the value built is "
+                       "handed to the packet's serialiser and the Remaining Length / property-length formulas are compared, as linear forms "
+                       "over size atoms, with the sources emitted. Byte-exact parse(encode(x)) = x and the leaf encoders are NOT decided.")
+    r1 = run.rule("C02-R1", "to_continuous_buffer and to_buffers append the same sources in the same order under the same conditions", floor=50)
     ps = serial.pairs(F, both=False)
     if not serial.has_vectored(F):
         # built without `std`: there is no to_buffers() (no IoSlice) in this configuration, nothing to compare
@@ -76,8 +78,8 @@ def check(run, F, tier):
             r1.ok(key, {"valuations": len(da), "max_items": max(len(x) for s in da.values() for x in s)})
 
     # ------------------------------------------------------------------ R3 / R4
-    r3 = run.rule("C02-R3", "build(): the Remaining Length formula counts exactly the sources the serialiser emits (every optional-field combination)", floor=29)
-    r4 = run.rule("C02-R4", "build(): each property-length field is the size of the property list serialised after it", floor=13)
+    r3 = run.rule("C02-R3", "build(): the Remaining Length formula counts exactly the sources the serialiser emits (every optional-field combination)", floor=24)
+    r4 = run.rule("C02-R4", "build(): each property-length field is the size of the property list serialised after it", floor=10)
     if not lenacct.id_buffers_ok(F):
         r3.violation("IsPacketId", "an IsPacketId implementor's Buffer is not [u8; size_of::<Self>()]: size_of::<PacketIdType>() and the identifier bytes differ in length")
     acct = lenacct.Acct(F)
